@@ -431,6 +431,58 @@ static SIM: AtomicPtr<Sim> = AtomicPtr::new(std::ptr::null_mut());
 thread_local! {
     static TID: Cell<usize> = const { Cell::new(usize::MAX) };
     static IN_SIM: Cell<bool> = const { Cell::new(false) };
+    /// set while the harness itself creates a thread (pool workers it registers by hand, the watchdog)
+    static RAW_SPAWN: Cell<bool> = const { Cell::new(false) };
+}
+
+/// run `f` with thread creation passed straight through to the system
+pub fn with_raw_spawn<R>(f: impl FnOnce() -> R) -> R {
+    let old = RAW_SPAWN.with(|c| c.replace(true));
+    let r = f();
+    RAW_SPAWN.with(|c| c.set(old));
+    r
+}
+
+/// is a thread created right now, by this thread, a thread of the simulated system?
+pub fn spawns_are_simulated() -> bool {
+    current_tid().is_some() && !IN_SIM.with(|c| c.get()) && !RAW_SPAWN.with(|c| c.get()) && !SIM.load(Ordering::Acquire).is_null()
+}
+
+/// the creation of a registered thread failed: it will never run
+pub fn thread_never_started(id: usize) {
+    with(|s| {
+        s.slots[id].state = TState::Finished;
+        s.live -= 1;
+    })
+}
+
+/// called by a joiner: yield until the simulated thread with this pthread handle has finished
+/// (a handle the simulator does not know is not waited for here)
+pub fn wait_finished(th: libc::pthread_t) {
+    if current_tid().is_none() || IN_SIM.with(|c| c.get()) {
+        return;
+    }
+    loop {
+        let state = with(|s| {
+            // a thread that has not begun yet has no handle recorded: look among the starting ones too
+            let mut found = None;
+            for t in 0..s.nthreads {
+                if s.slots[t].pthread == th && t != 0 {
+                    found = Some(s.slots[t].state == TState::Finished);
+                }
+            }
+            let any_starting = (0..s.nthreads).any(|t| s.slots[t].state == TState::Starting || (s.slots[t].pthread == 0 && s.slots[t].state == TState::Runnable));
+            match found {
+                Some(done) => Some(done),
+                None if any_starting => Some(false),
+                None => None,
+            }
+        });
+        match state {
+            Some(false) => yield_now(),
+            _ => return,
+        }
+    }
 }
 
 pub const REALTIME_EPOCH_NS: u64 = 1_700_000_000_000_000_000;
@@ -870,6 +922,9 @@ extern "C" fn on_segv_in_stall(_sig: libc::c_int) {
     raw_exit(3)
 }
 fn start_watchdog() {
+    with_raw_spawn(start_watchdog_inner)
+}
+fn start_watchdog_inner() {
     unsafe {
         let mut sa: libc::sigaction = std::mem::zeroed();
         sa.sa_sigaction = on_stall as usize;
@@ -1195,8 +1250,9 @@ pub unsafe fn hook_futex(addr: *const AtomicU32, op: i32, val: u32, timeout: *co
             let seq = s.block_seq;
             s.slots[me].state = TState::Blocked { addr: addr as usize, deadline, seq };
             s.slots[me].timed_out = false;
-            let aid = s.addr_id(addr as usize);
-            s.ev(me, Pt::Block, aid, 0);
+            // (the identity of the futex word is not part of the hashed history: whether a freed lock's address
+            // is reused by a later one depends on the allocator state the child inherited, not on the run)
+            s.ev(me, Pt::Block, 0, 0);
             s.hand_over(me, true);
             if s.slots[me].timed_out {
                 s.slots[me].timed_out = false;
@@ -1228,8 +1284,7 @@ pub unsafe fn hook_futex(addr: *const AtomicU32, op: i32, val: u32, timeout: *co
                 woken += 1;
                 n -= 1;
             }
-            let aid = s.addr_id(addr as usize);
-            s.ev(me, Pt::FutexWake, aid, woken as u64);
+            s.ev(me, Pt::FutexWake, 0, woken as u64);
             if woken > 0 {
                 // kernels often run the wakee right away (wake-up preemption): the random policy
                 // hands over to a just-woken thread half of the time
